@@ -44,6 +44,56 @@ static EbErrorType make(T **pp) {
 #include "Source/Lib/Common/Codec/EbBitstreamUnit.c"
 typedef OutputBitstreamUnit T;
 static EbErrorType make(T **pp) { EB_NEW(*pp, output_bitstream_unit_ctor, (uint32_t)vin_range(1, 64)); return EB_ErrorNone; }
+#elif OBJ == 5
+/* the encoder handle itself: real svt_enc_handle_ctor / svt_enc_handle_dctor / svt_enc_handle_stop_threads (sliced by name from
+ * EbEncHandle.c); the sequence-control-set instance constructor is replaced by a stand-in that allocates through the same
+ * failure-injecting model (object + sequence control set, then may fail), thread macros by a live counter */
+#include "EbSequenceControlSet.h"
+#include "EbEncHandle.h"
+static int live_threads;
+#undef EB_DESTROY_THREAD
+#undef EB_DESTROY_THREAD_ARRAY
+#define EB_DESTROY_THREAD(pointer) do { if (pointer) { live_threads--; pointer = NULL; } } while (0)
+#define EB_DESTROY_THREAD_ARRAY(pa, count) do { if (pa) { for (uint32_t i_ = 0; i_ < (count); i_++) EB_DESTROY_THREAD((pa)[i_]); pa = NULL; } } while (0)
+void init_thread_management_params(void) {}
+void lib_svt_encoder_send_error_exit(EbPtr hComponent, uint32_t error_code) { (void)hComponent; (void)error_code; }
+static void scs_dctor_(EbPtr p) { (void)p; }
+static void inst_dctor_(EbPtr p) { EbSequenceControlSetInstance *o = (EbSequenceControlSetInstance *)p; EB_DELETE(o->scs_ptr); }
+static EbErrorType scs_ctor_(SequenceControlSet *s) { s->dctor = scs_dctor_; return EB_ErrorNone; }
+EbErrorType svt_sequence_control_set_instance_ctor(EbSequenceControlSetInstance *object_ptr) {
+    object_ptr->dctor = inst_dctor_;
+    void *scratch; EB_MALLOC(scratch, 16); EB_FREE(scratch);          /* stands for the encode context and its tables: may fail before scs_ptr exists */
+    /* typed malloc + field-wise initialisation instead of EB_NEW: a calloc'ed 255 kB SequenceControlSet is a zero-initialised byte array that costs minutes of symbolic execution */
+    EB_MALLOC(object_ptr->scs_ptr, sizeof(SequenceControlSet)); scs_ctor_(object_ptr->scs_ptr);
+    { SequenceControlSet *c = object_ptr->scs_ptr; c->picture_analysis_process_init_count = c->motion_estimation_process_init_count = c->source_based_operations_process_init_count = c->inlme_process_init_count = 0;
+      c->mode_decision_configuration_process_init_count = c->enc_dec_process_init_count = c->dlf_process_init_count = c->cdef_process_init_count = c->rest_process_init_count = c->entropy_coding_process_init_count = 0;
+      c->total_process_init_count = 0; }
+    EB_MALLOC(scratch, 16); EB_FREE(scratch);                         /* ... and allocations after it (sb_params_array etc.) */
+    return EB_ErrorNone;
+}
+/* type-directed destructor dispatch (see common/dctor_dispatch_srm.h for the reason): per static type, assert that the dctor
+ * field holds the destructor its constructor installed, then call it directly; every other object type of the handle
+ * destructor must still be NULL at this stage */
+static void svt_enc_handle_dctor(EbPtr p);
+static inline void v_del_handle(EbEncHandle *o) { V_ASSERT(o->dctor == svt_enc_handle_dctor, "dctor field holds the destructor installed by the object's constructor"); svt_enc_handle_dctor(o); }
+static inline void v_del_inst(EbSequenceControlSetInstance *o) { V_ASSERT(o->dctor == inst_dctor_, "dctor field holds the destructor installed by the object's constructor"); inst_dctor_(o); }
+static inline void v_del_scs(SequenceControlSet *o) { V_ASSERT(o->dctor == scs_dctor_, "dctor field holds the destructor installed by the object's constructor"); scs_dctor_(o); }
+static inline void v_del_none(void *o) { (void)o; V_ASSERT(0, "no pool, context or resource object exists while the handle constructor is unwinding"); }
+#undef EB_DELETE_UNCHECKED
+#define EB_DELETE_UNCHECKED(pobj)                                         \
+    do {                                                                  \
+        if ((pobj)->dctor)                                                \
+            _Generic((pobj),                                              \
+                EbEncHandle *: v_del_handle((void *)(pobj)),              \
+                EbSequenceControlSetInstance *: v_del_inst((void *)(pobj)), \
+                SequenceControlSet *: v_del_scs((void *)(pobj)),          \
+                default: v_del_none((void *)(pobj)));                     \
+        EB_FREE((pobj));                                                  \
+    } while (0)
+#include "c16_handle.inc"
+typedef EbEncHandle T;
+static EbComponentType comp_;
+static EbErrorType make(T **pp) { EB_NEW(*pp, svt_enc_handle_ctor, &comp_); return EB_ErrorNone; }
 #endif
 
 void harness(void) {
